@@ -332,7 +332,7 @@ PROPS = {
             "net.ParseIP/ParseCIDR, strconv.ParseUint modelled in Lean on the grammar they accept, validated by the codec correspondence",
             "RocksDB / CDB present the ordered multimap interface of Model/Store.lean (C15, C16, C07)",
         ],
-        "rule": "30 (thorough 800) files with maps/subnets x 40 queries with EDNS/ECS variety; distinct = distinct (op, output shape)",
+        "rule": "30 (thorough 800) files with maps/subnets x 40 queries with EDNS/ECS variety, each file also with the response cache on (op servecsc: 12 questions x 2-3 clients with different OPT / client-subnet options); distinct = distinct (op, output shape)",
         "assumptions": ["subnets well-formed (C03 W1-W3)"],
     },
     "C13": {
@@ -422,7 +422,7 @@ PROPS = {
         "trusted": COMMON_TRUSTED + [
             "RocksDB secondary catch-up semantics; goroutine identification via runtime.Stack in the scheduler",
         ],
-        "rule": "exhaustive interleavings of 1 query x 1 reload (x publish) on CDB plus random schedules up to 4 queries x 3 "
+        "rule": "exhaustive interleavings of 1 query x 1 reload (x publish) on CDB, 60 (thorough 1500) sequential schedules with the response cache on (cdbc/rdbc), plus random schedules up to 4 queries x 3 "
                 "reloads x 3 publishes on CDB and RocksDB (quick ~1160 schedules, thorough ~29700); distinct = distinct (op, "
                 "output shape)",
         "assumptions": ["publishes never lower a generation at a path (forward)"],
@@ -480,7 +480,7 @@ PROPS = {
         ],
         "rule": "300 (thorough 5000) key renderings with boundary numbers; old-format collision pairs; every yield point x warm/cold "
                 "x reload x release x fresh queries per backend; 36 (1500) random sequential histories of 8-48 queries with <=3 "
-                "reloads; 60 (3000) random schedules with <=3 parked queries; 10 client profiles",
+                "reloads (full reloads, and on RocksDB catch-up reloads of a private copy after ApplyDiff); race schedules across a catch-up for park points after the last read; 60 (3000) random schedules with <=3 parked queries; 10 client profiles",
         "assumptions": ["KeyDetermines: the uncached response depends only on (location, qtype, qclass, name) within one generation"],
     },
 }
